@@ -548,6 +548,8 @@ func (pa *path) doDescribe(req defs.PathDescribeReq) {
 	if pa.conf.HasOnDemandPublisher() {
 		if pa.onDemandPublisherState == pathOnDemandStateInitial {
 			pa.onDemandPublisherStart(req.AccessRequest.Query)
+		} else {
+			pa.onDemandPublisherWaitAgain()
 		}
 		pa.describeRequestsOnHold = append(pa.describeRequestsOnHold, req)
 		return
@@ -650,6 +652,8 @@ func (pa *path) doAddReader(req defs.PathAddReaderReq) {
 	if pa.conf.HasOnDemandPublisher() {
 		if pa.onDemandPublisherState == pathOnDemandStateInitial {
 			pa.onDemandPublisherStart(req.AccessRequest.Query)
+		} else {
+			pa.onDemandPublisherWaitAgain()
 		}
 		pa.readerAddRequestsOnHold = append(pa.readerAddRequestsOnHold, req)
 		return
@@ -849,6 +853,25 @@ func (pa *path) onDemandPublisherStart(query string) {
 		ExternalCmdEnv:  pa.ExternalCmdEnv(),
 		Query:           query,
 	})
+
+	pa.onDemandPublisherReadyTimer.Stop()
+	pa.onDemandPublisherReadyTimer = time.NewTimer(time.Duration(pa.conf.RunOnDemandStartTimeout))
+
+	pa.onDemandPublisherState = pathOnDemandStateWaitingReady
+}
+
+// onDemandPublisherWaitAgain is called when a request is put on hold while the on-demand
+// publisher has gone away (state ready or closing, no stream): the request must not wait
+// longer than runOnDemandStartTimeout.
+func (pa *path) onDemandPublisherWaitAgain() {
+	if pa.onDemandPublisherState == pathOnDemandStateWaitingReady {
+		return
+	}
+
+	if pa.onDemandPublisherState == pathOnDemandStateClosing {
+		pa.onDemandPublisherCloseTimer.Stop()
+		pa.onDemandPublisherCloseTimer = emptyTimer()
+	}
 
 	pa.onDemandPublisherReadyTimer.Stop()
 	pa.onDemandPublisherReadyTimer = time.NewTimer(time.Duration(pa.conf.RunOnDemandStartTimeout))
